@@ -13,6 +13,7 @@ import (
 	"reflect"
 	"strings"
 	"sync"
+	"sync/atomic"
 
 	restful "github.com/emicklei/go-restful/v3"
 
@@ -211,6 +212,8 @@ type c16Result struct {
 
 type c16Key struct{}
 
+var c16Sequential int32 // 1 while the sequential phase of a history runs
+
 func breakBody(r *core.Rand, it *c16Item, plain []byte) {
 	enc := compressBody(it.Coding, plain)
 	kinds := []string{"syntax", "truncated-doc", "empty", "one-byte", "two-bytes"}
@@ -259,7 +262,7 @@ func breakBody(r *core.Rand, it *c16Item, plain []byte) {
 func c16(ctx *core.Ctx) {
 	restful.RegisterEntityAccessor(c16Vendor, restful.NewEntityAccessorJSON(c16Vendor))
 	quietLogs()
-	ctx.Rule("values of a generated struct family (int64/uint64 extremes and 2^53+1, int32, float64 incl. max/denormal/random bit patterns, bool, attribute, nested struct, non-empty slices, strings over ASCII/markup/control/unicode runes restricted to XML Char for XML) are written by the framework's own entity writer (pretty on/off), optionally gzip- (single or multi-member) / deflate-compressed by the harness and posted to an echo route calling ReadEntity into the struct or (JSON, every 4th) into an untyped map where numbers must arrive as exact json.Number; Content-Type spellings with parameters and optional whitespace, or absent with a default request content type, or the written response's Content-Type verbatim (with a filter that pre-set the other codec's type; with a registered vendor type whose key has upper-case letters); both providers; a vendor type that clients send in several spellings before its accessor is registered, and again afterwards. Histories of 24 requests interleave well-formed bodies with broken ones {syntax, truncated document, empty, bad magic, declared-but-plain, garbage, truncated stream, trailer cut/flipped, syntax inside a valid stream}; run sequentially and from 16 goroutines (race detector on). Oracle: reference decode with fresh stdlib readers: error iff the reference errs (never a panic), value DeepEqual to the original / the reference value; every well-formed request round-trips whatever came before. Non-trivial = every judged request; distinct by (codec, coding, content-type spelling, broken kind, pretty, provider, mode).")
+	ctx.Rule("values of a generated struct family (int64/uint64 extremes and 2^53+1, int32, float64 incl. max/denormal/random bit patterns, bool, attribute, nested struct, non-empty slices, strings over ASCII/markup/control/unicode runes restricted to XML Char for XML) are written by the framework's own entity writer (pretty on/off), optionally gzip- (single or multi-member) / deflate-compressed by the harness and posted to an echo route calling ReadEntity into the struct or (JSON, every 4th) into an untyped map where numbers must arrive as exact json.Number; Content-Type spellings with parameters and optional whitespace, or absent with a default request content type, or the written response's Content-Type verbatim (with a filter that pre-set the other codec's type; with a registered vendor type whose key has upper-case letters); both providers (fresh instances, or the instances that were installed and replaced before); in the sequential phase every third echo handler closes the request body after a successful ReadEntity; a vendor type that clients send in several spellings before its accessor is registered, and again afterwards. Histories of 24 requests interleave well-formed bodies with broken ones {syntax, truncated document, empty, bad magic, declared-but-plain, garbage, truncated stream, trailer cut/flipped, syntax inside a valid stream}; run sequentially and from 16 goroutines (race detector on). Oracle: reference decode with fresh stdlib readers: error iff the reference errs (never a panic), value DeepEqual to the original / the reference value; every well-formed request round-trips whatever came before. Non-trivial = every judged request; distinct by (codec, coding, content-type spelling, broken kind, pretty, provider, mode).")
 	ctx.Assume("an error is demanded only when the stdlib reference decode of the same bytes errs (a stream missing only its trailer decodes fine, DESIGN §4.8)")
 	defer restful.SetCompressorProvider(restful.NewSyncPoolCompessors())
 	defer restful.DefaultRequestContentType("")
@@ -269,21 +272,28 @@ func c16(ctx *core.Ctx) {
 		"xml":  {"application/xml", "application/xml; charset=utf-8", "application/xml;charset=UTF-8", "application/xml ; charset=utf-8", " application/xml", "application/xml; charset=\"UTF-8\""},
 	}
 	hists := ctx.N(60, 2500)
+	// provider instances live as long as the process: an application switches between the ones it has (A, B, A again)
+	provs := map[string]restful.CompressorProvider{"bounded1": restful.NewBoundedCachedCompressors(1, 1), "bounded4": restful.NewBoundedCachedCompressors(4, 4),
+		"mutex": &mutexProvider{}, "syncpool": restful.NewSyncPoolCompessors()}
 	for hi := 0; hi < hists; hi++ {
 		if ctx.Skip(hi) {
 			continue
 		}
 		r := ctx.Rand(hi, "hist")
 		prov := []string{"syncpool", "bounded1", "bounded4", "mutex"}[hi%4]
-		switch prov {
-		case "bounded1":
-			restful.SetCompressorProvider(restful.NewBoundedCachedCompressors(1, 1))
-		case "bounded4":
-			restful.SetCompressorProvider(restful.NewBoundedCachedCompressors(4, 4))
-		case "mutex":
-			restful.SetCompressorProvider(&mutexProvider{})
-		default:
-			restful.SetCompressorProvider(restful.NewSyncPoolCompessors())
+		if hi%8 < 4 {
+			restful.SetCompressorProvider(provs[prov]) // the instance that was installed (and replaced) before
+		} else {
+			switch prov {
+			case "bounded1":
+				restful.SetCompressorProvider(restful.NewBoundedCachedCompressors(1, 1))
+			case "bounded4":
+				restful.SetCompressorProvider(restful.NewBoundedCachedCompressors(4, 4))
+			case "mutex":
+				restful.SetCompressorProvider(&mutexProvider{})
+			default:
+				restful.SetCompressorProvider(restful.NewSyncPoolCompessors())
+			}
 		}
 		defKind := []string{"", "json", "xml"}[hi%3]
 		switch defKind {
@@ -313,6 +323,12 @@ func c16(ctx *core.Ctx) {
 				res.err = req.ReadEntity(&res.gotAny)
 			} else {
 				res.err = req.ReadEntity(&res.got)
+			}
+			if req.Request.Header.Get("X-Close-Body") != "" && res.err == nil {
+				// tidy handlers close what they have read. Only in the sequential phase and after a successful read: ReadEntity
+				// leaves Request.Body pointing at the pooled reader it has already released (see DESIGN 4.17), so closing it
+				// while other requests are in flight, or after a failed Reset, is not something the properties speak about
+				req.Request.Body.Close()
 			}
 			resp.WriteHeader(204)
 		}))
@@ -376,6 +392,9 @@ func c16(ctx *core.Ctx) {
 			req := rt.Req{Method: "POST", Path: "/rt/echo", HasCT: it.HasCT, CT: it.CT, Hdr: map[string]string{}, BodyLen: len(it.body)}
 			if it.Coding != "" {
 				req.Hdr["Content-Encoding"] = strings.TrimSuffix(it.Coding, "-multi")
+			}
+			if len(it.body)%3 == 1 && atomic.LoadInt32(&c16Sequential) == 1 {
+				req.Hdr["X-Close-Body"] = "1"
 			}
 			hr := rt.HTTPRequest(&req, nil)
 			hr.Body = io.NopCloser(bytes.NewReader(it.body))
@@ -460,7 +479,9 @@ func c16(ctx *core.Ctx) {
 		}
 		prev := ""
 		for _, it := range items {
+			atomic.StoreInt32(&c16Sequential, 1)
 			judge(it, send(it), "sequential", prev)
+			atomic.StoreInt32(&c16Sequential, 0)
 			prev = it.Broken
 		}
 		// the same history from 16 goroutines at once (each goroutine walks the whole list from its own offset)
